@@ -63,7 +63,7 @@ def run(ctx):
         key = "walk:%s:%s:%s" % (bad["err"], bad["errmsg"][:40], ",".join(missing))
         if key not in reported and len(reported) < 30:
             reported.add(key)
-            vlib.violation(ctx, "recorded walk of %r rejected by AnkoWalker: failat=%d err=%s %s; nodes never presented: %s" % (bysrc.get(bad["id"], "")[:200], bad["failat"], bad["err"], bad["errmsg"], missing),
+            vlib.violation(ctx, "recorded walk of %r rejected by AnkoWalker: failat=%d err=%s %s; nodes never presented: %s" % (bysrc.get(bad["id"].split("|nested")[0].split("|conc")[0], "")[:200] + (" (%s)" % bad["id"].rsplit("|", 1)[1] if "|nested" in bad["id"] or "|conc" in bad["id"] else ""), bad["failat"], bad["err"], bad["errmsg"], missing),
                            {"kind": "walk", "id": bad["id"], "src": bysrc.get(bad["id"]), "walk": bad, "finding_key": key})
     if not ctx.violations:
         # corruption control: drop one visit from a complete walk
